@@ -18,8 +18,13 @@
 //     and `_busyThreads == 0`; a task is popped and counted busy under that same mutex, so this is
 //     exact).  Handlers run on pool threads: recording is mutex-protected and the delivered messages
 //     are compared as a multiset (matching in reference order), so the result does not depend on
-//     which pool thread ran first.  Once the server closes the session (engine close()) no further
-//     bytes of the stream are fed, as a closed socket delivers none.
+//     which pool thread ran first.
+//   * close: when handleIncomingData itself closes the session (cap / invalid Content-Length paths,
+//     close() called on the feeding thread) no further bytes of the stream are fed -- the engine handles
+//     the close before the next read.  A close requested from a pool thread (error-response path) does
+//     not stop the feed: the engine processes close commands asynchronously, so the schedule in which
+//     the bytes that already arrived are delivered first is a real one, and it is the one that keeps
+//     one defect from masking the framing of everything behind it.
 //
 // ORACLE: oracle/c15_server_ref.hpp, a strict three-valued reference framer written from RFC 9112
 // §2-§7 (not derived from iora).  For a stream it yields the certainly-valid messages M0..Mk-1 and a
@@ -64,11 +69,14 @@ struct RecEngine : net::detail::EngineBase
   std::mutex m;
   std::vector<int> statuses;
   int closes = 0;
+  int closesOnFeeder = 0; // close() called synchronously from inside handleIncomingData
+  std::thread::id feeder = std::this_thread::get_id();
   void reset()
   {
     std::lock_guard<std::mutex> l(m);
     statuses.clear();
     closes = 0;
+    closesOnFeeder = 0;
   }
   net::StartResult start() override { return net::StartResult::ok(); }
   void stop() override {}
@@ -87,6 +95,8 @@ struct RecEngine : net::detail::EngineBase
   {
     std::lock_guard<std::mutex> l(m);
     ++closes;
+    if (std::this_thread::get_id() == feeder)
+      ++closesOnFeeder;
     return true;
   }
   void note(const void *d, std::size_t n)
@@ -391,7 +401,7 @@ struct Env
       bool closed;
       {
         std::lock_guard<std::mutex> l(eng->m);
-        closed = eng->closes > 0;
+        closed = eng->closesOnFeeder > 0;
       }
       return !closed;
     };
@@ -1479,7 +1489,7 @@ struct Explorer
     r.bounds["framing"] = "none, Content-Length (N, 00N), chunked: every composition of the body into <=3 chunks x size format {hex, 0HEX} x "
                           "extensions {none, ;a=b on every line, ;q=\"x y\";n} x trailers {0,1,2}";
     r.bounds["pipelines"] = thorough ? "all sequences of 2 and 3 of 12 atoms" : "all sequences of 2 of 12 atoms, all sequences of 3 of 6 atoms";
-    r.bounds["segmentations"] = thorough ? "unsplit, every single cut, byte-at-a-time for every stream; every pair of cuts for families A, B and 2-pipelines"
+    r.bounds["segmentations"] = thorough ? "unsplit, every single cut, byte-at-a-time for every stream; every pair of cuts for families A, B, 2-pipelines and the 3-pipelines over the first 6 atoms"
                                          : "unsplit, every single cut, byte-at-a-time for every stream; every pair of cuts for family A restricted to POST/header set 0/hex sizes";
     r.bounds["hostile"] = "every single-byte substitution over {CR LF : SP 0 f ; NUL 0xff} of each base stream, fed unsplit, cut before and after the substituted byte" +
                           std::string(thorough ? ", and byte-at-a-time" : " (byte-at-a-time on a subset)");
@@ -1535,15 +1545,18 @@ struct Explorer
     for (size_t i = 0; i < n3 && !stop; ++i)
       for (size_t j = 0; j < n3; ++j)
         for (size_t k = 0; k < n3; ++k)
-          stream("C3", pipelineAtom(i, 0) + pipelineAtom(j, 1) + pipelineAtom(k, 2), Basic);
+          stream("C3", pipelineAtom(i, 0) + pipelineAtom(j, 1) + pipelineAtom(k, 2),
+                 thorough && i < kQuickAtoms && j < kQuickAtoms && k < kQuickAtoms ? Pairs : Basic);
     // ---- E: hostile single-byte substitutions ----
     if (thorough)
     {
       for (auto &b : familyB)
         hostile(b, true);
-      for (auto &body : kBodies)
-        for (auto &f : allFramings(body, true))
-          hostile(buildRequest("POST", "/", 0, body, f), true);
+      for (int mi = 0; mi < 3; ++mi)
+        for (int hs = 0; hs < 2; ++hs)
+          for (auto &body : kBodies)
+            for (auto &f : allFramings(body, false))
+              hostile(buildRequest(kMethods[mi], "/", hs, body, f), mi == 1 && hs == 0);
       for (auto &p : pipes2)
         hostile(p, true);
     }
